@@ -157,19 +157,20 @@ Definition of_outcome (o : outcome) : pres :=
 Definition prim (setf : pc -> Z -> Z -> pc * outcome) (rv : val) (m : string) (args : list val) : val * pres :=
   match rv, args with
   | VPal p, [VZ a] =>
-      if String.eqb m "id" then let '(p', k, ok) := pal_id p a in (VPal p', PV (VTup [VZ k; VB ok]))
+      if String.eqb m "id" then
+        (VPal (fst (fst (pal_id p a))), PV (VTup [VZ (snd (fst (pal_id p a))); VB (snd (pal_id p a))]))
       else if String.eqb m "value" then (rv, match pal_value p a with Some v => PV (VZ v) | None => PP pPal end)
       else (rv, PStuck)
   | VStore d, [VZ i] =>
-      if String.eqb m "Get" then let '(d', o) := bs_get d i in (VStore d', of_outcome o) else (rv, PStuck)
+      if String.eqb m "Get" then (VStore (fst (bs_get d i)), of_outcome (snd (bs_get d i))) else (rv, PStuck)
   | VStore d, [VZ i; VZ v] =>
-      if String.eqb m "Set" then let '(d', o) := bs_set d i v in (VStore d', of_outcome o) else (rv, PStuck)
+      if String.eqb m "Set" then (VStore (fst (bs_set d i v)), of_outcome (snd (bs_set d i v))) else (rv, PStuck)
   | VStore d, [] => if String.eqb m "Len" then (rv, PV (VZ (blen d))) else (rv, PStuck)
   | VCfg cf, [VZ b] =>
       if String.eqb m "create" then (rv, PV (VPal (cfg_create cf b)))
       else if String.eqb m "bits" then (rv, PV (VZ (cfg_bits cf b))) else (rv, PStuck)
   | VCont c, [VZ i; VZ v] =>
-      if String.eqb m "Set" then let '(c', o) := setf c i v in (VCont c', of_outcome o) else (rv, PStuck)
+      if String.eqb m "Set" then (VCont (fst (setf c i v)), of_outcome (snd (setf c i v))) else (rv, PStuck)
   | VCont c, [VZ i] => if String.eqb m "Get" then (rv, of_outcome (pc_get c i)) else (rv, PStuck)
   | _, _ => (rv, PStuck)
   end.
@@ -472,10 +473,9 @@ Fixpoint exec (setf : pc -> Z -> Z -> pc * outcome) (fuel : nat) (e : env) (s : 
         | SN e1 =>
             match ev e1 c with
             | EV e2 (VB b) =>
-                match scoped e2 (if b then th else el) with
-                | SN e3 => SN (pop_to (List.length e) e3)
-                | r => r
-                end
+                if b
+                then match scoped e2 th with SN e3 => SN (pop_to (List.length e) e3) | r => r end
+                else match scoped e2 el with SN e3 => SN (pop_to (List.length e) e3) | r => r end
             | EV _ _ => SStuck | EP e2 w => SP e2 w | EStuck => SStuck
             end
         | r => r
@@ -521,7 +521,7 @@ Definition exec_body (setf : pc -> Z -> Z -> pc * outcome) (fuel : nat) (e : env
 (* ====================== running a translated function ====================== *)
 
 Definition no_set : pc -> Z -> Z -> pc * outcome := fun c _ _ => (c, OErr).
-Definition run_fuel : nat := 40.
+Definition run_fuel : nat := 12.
 
 (* a method: receiver and arguments bound to their Go names *)
 Definition run (setf : pc -> Z -> Z -> pc * outcome) (fn : gfunc) (recv : val) (args : list val) : sres :=
